@@ -202,6 +202,7 @@ class StmtMixin:
             raise AnalysisError("loop at %s:%d does not stabilise" % (fx.func.file, n.lineno))
         info = dict(info)
         info.update(extra)
+        info["pre"] = {nm: st.env.get(nm) for nm in names}
         self.emit(st, fx, "LOOP", n, loop=loop_id, lkind=kind, body=body_paths, **info)
         for p in body_paths:
             if p.exit is not None and p.exit[0] in ("return", "raise"):
@@ -317,7 +318,16 @@ class StmtMixin:
             bs.conds = bs.conds + (Cond(t, True, fx.func.file, n.lineno, ast.unparse(n.test)),)
             self.assume(t, True, bs)
             return {"test": t}
-        yield from self._loop_region(n, st, fx, "while", {"testnode": n.test}, bind)
+        # is the body entered at least once?  (the test as it evaluates on the state before the loop; side-effect free tests only)
+        enters = None
+        if not any(isinstance(x, ast.Call) for x in ast.walk(n.test)):
+            probe = st.fork()
+            probe.events = []
+            for r, t0, s0 in self.ev(n.test, probe, fx):
+                if r == "ok":
+                    enters = self.truth(t0, s0)
+                break
+        yield from self._loop_region(n, st, fx, "while", {"testnode": n.test, "enters": enters}, bind)
 
     # ---- try -------------------------------------------------------------
     def _handler_matches(self, h, exc, fx, st):
